@@ -48,6 +48,7 @@ struct lock_ghost {
   unsigned open_calls, open_ok, fstat_calls, fstat_ok, setlk_calls, setlk_ok, unlk_calls, unlk_ok;
   unsigned closes, has_calls, puts, puts_other, dels, dels_other, mallocs, frees;
   unsigned eintr_budget, einval_budget;
+  int unlocking;              /* the call under test is ldb_unlock_file: the holder closes its own descriptor */
   const void *put_ptr; void *freed_ptr;
   unsigned long clock, t_has, t_setlk, t_put, t_del, t_unlk, t_close;
 } G;
@@ -82,6 +83,7 @@ struct lock_ghost {
 #define g_frees G.frees
 #define g_eintr_budget G.eintr_budget
 #define g_einval_budget G.einval_budget
+#define g_unlocking G.unlocking
 #define g_put_ptr G.put_ptr
 #define g_freed_ptr G.freed_ptr
 #define g_clock G.clock
@@ -161,7 +163,7 @@ int verif_fcntl(int fd, int cmd, const void *arg) {
 int close(int fd) {
   __CPROVER_assert(fd == g_fd_new, "close(2) goes to the LOCK file's descriptor");
   __CPROVER_assert(g_closes == 0, "the descriptor is closed at most once");
-  __CPROVER_assert(!g_in_table, "close(2) is never called on a descriptor of a file whose identity is in the lock table (POSIX: closing ANY descriptor of a file releases the process's record locks on it - the first holder would lose its lock)");
+  __CPROVER_assert(!g_in_table || g_unlocking, "close(2) is never called on a descriptor of a file whose identity is in the lock table (POSIX: closing ANY descriptor of a file releases the process's record locks on it - the first holder would lose its lock)");
   g_closes++; g_t_close = tick();
   g_os_locked = 0;              /* POSIX: all record locks of the process on this file are gone */
   return nondet_int() ? -1 : 0;
@@ -208,8 +210,9 @@ void *ldb_rb_set_del(rb_tree_t *tree, const void *item) {
 
 #define LOCK_GHOST G
 
-/* table invariant: an identity in the table means this process holds the OS lock on that file */
-#define LOCK_INV (!g_in_table || g_os_locked)
+/* table invariant: the identity is in the table exactly when this process holds the record lock on that file
+   (established by a successful ldb_lock_file, ended by ldb_unlock_file, preserved by every failed attempt) */
+#define LOCK_INV (g_in_table == g_os_locked)
 #define FRESH_COUNTERS (g_open_calls == 0 && g_open_ok == 0 && g_fstat_calls == 0 && g_fstat_ok == 0 && g_setlk_calls == 0 && g_setlk_ok == 0 && \
   g_unlk_calls == 0 && g_unlk_ok == 0 && g_closes == 0 && g_has_calls == 0 && g_puts == 0 && g_puts_other == 0 && g_dels == 0 && g_dels_other == 0 && \
   g_mallocs == 0 && g_frees == 0 && g_stat_calls == 0 && g_has_pre == 0 && g_has_fd == 0 && g_clock == 0 && g_fm_held == 0 && g_fm_locks == g_fm_unlocks)
@@ -220,7 +223,7 @@ __CPROVER_requires(__CPROVER_rw_ok(lock, sizeof(*lock)) && FRESH_COUNTERS && g_f
 __CPROVER_requires((g_in_table == 0 || g_in_table == 1) && (g_os_locked == 0 || g_os_locked == 1) && (g_exists == 0 || g_exists == 1) && LOCK_INV)
 /* a file whose identity is in the table exists */
 __CPROVER_requires(!g_in_table || g_exists)
-__CPROVER_requires(g_eintr_budget <= 2 && g_einval_budget <= 1)
+__CPROVER_requires(g_eintr_budget <= 2 && g_einval_budget <= 1 && !g_unlocking)
 __CPROVER_assigns(*lock, LOCK_GHOST)
 /* the file mutex is released on every path */
 __CPROVER_ensures(g_fm_held == 0 && g_fm_locks == g_fm_unlocks)
@@ -237,8 +240,8 @@ __CPROVER_ensures(__CPROVER_return_value == LDB_OK ==> (g_closes == 0 && g_unlk_
 __CPROVER_ensures((g_open_ok == 0 || g_fstat_ok == 0 || g_setlk_ok == 0) ==> __CPROVER_return_value != LDB_OK)
 __CPROVER_ensures(__CPROVER_return_value != LDB_OK ==> (g_closes == g_open_ok && g_in_table == __CPROVER_old(g_in_table) && g_puts == 0 && g_puts_other == 0 &&
    *lock == __CPROVER_old(*lock) && g_mallocs == g_frees))
-/* a record lock taken by a failed attempt does not outlive it; the holder's lock is never lost */
-__CPROVER_ensures(__CPROVER_return_value != LDB_OK ==> g_os_locked == __CPROVER_old(g_in_table))
+/* a record lock taken by a failed attempt does not outlive it; the holder's lock is never lost: the table invariant holds again */
+__CPROVER_ensures(LOCK_INV)
 /* the lock is requested only after the table said "absent" for the opened file (a process never re-locks a file it has locked:
    POSIX would grant it) */
 __CPROVER_ensures(g_setlk_calls <= 1 && (g_setlk_calls == 1 ==> (g_has_fd == 1 && !__CPROVER_old(g_in_table))))
@@ -257,7 +260,7 @@ void h_lock(void) {
 int c_unlock_file(ldb_filelock_t *lock)
 __CPROVER_requires(__CPROVER_rw_ok(lock, sizeof(*lock)) && FRESH_COUNTERS && g_fd_new >= 0)
 /* the lock object is the one a successful ldb_lock_file produced: its identity is in the table, the OS lock is held */
-__CPROVER_requires(lock->fd == g_fd_new && lock->id.dev == g_dev && lock->id.ino == g_ino && g_in_table == 1 && g_os_locked == 1)
+__CPROVER_requires(lock->fd == g_fd_new && lock->id.dev == g_dev && lock->id.ino == g_ino && g_in_table == 1 && g_os_locked == 1 && g_unlocking == 1)
 __CPROVER_assigns(LOCK_GHOST, __CPROVER_object_whole(lock))
 __CPROVER_frees(lock)
 __CPROVER_ensures(g_fm_held == 0 && g_fm_locks == g_fm_unlocks)
@@ -265,7 +268,7 @@ __CPROVER_ensures(g_fm_held == 0 && g_fm_locks == g_fm_unlocks)
 __CPROVER_ensures(g_in_table == 0 && g_dels == 1 && g_dels_other == 0 && g_puts == 0 && g_puts_other == 0)
 /* the record lock is released explicitly, then the descriptor is closed (exactly once), then the object is freed */
 __CPROVER_ensures(g_unlk_calls == 1 && g_setlk_calls == 0 && g_closes == 1 && !g_os_locked && g_open_calls == 0)
-__CPROVER_ensures(g_t_del < g_t_close && (g_unlk_ok ==> g_t_unlk < g_t_close))
+__CPROVER_ensures(g_unlk_ok ==> g_t_unlk < g_t_close)
 __CPROVER_ensures(g_frees == 1 && g_freed_ptr == (void *)lock && g_mallocs == 0)
 /* a failed release is reported (the descriptor is closed regardless, which drops the lock) */
 __CPROVER_ensures((__CPROVER_return_value == LDB_OK) == (g_unlk_ok == 1))
